@@ -1,6 +1,7 @@
 import BM.Props.C10
 import BM.Proofs.PassInv
 import BM.Proofs.Prov
+import BM.Proofs.ProvC
 /-
   C10 composed: the style attribute in what `sanitizeAttrs` returns — and, for plain policies,
   on every tag re-read from the returned bytes — is exactly `sanitizeStyles` of an input style
@@ -74,7 +75,7 @@ theorem C10_sanitizeAttrs (p : Policy) (el : Bytes) (attrs : List Attr) (aps : A
     exact hfirst b ha hk
 
 /-- **C10 (byte level, plain policies)** -/
-theorem C10_bytes (p : Policy) (hp : Plain p.ensureInit) (input : Bytes) :
+theorem C10_bytes (p : Policy) (hp : PlainC p.ensureInit) (input : Bytes) :
     ∀ k ∈ tokenize (p.sanitizeCore input), (k.tt = .start ∨ k.tt = .selfClosing) →
       p.ensureInit.hasStylePolicies k.data = true →
       ∀ b ∈ k.attrs, b.key = b!"style" →
@@ -82,7 +83,7 @@ theorem C10_bytes (p : Policy) (hp : Plain p.ensureInit) (input : Bytes) :
           b.val = p.ensureInit.sanitizeStyles a.val k.data ∧ b.val ≠ [] := by
   intro k hk htt hs b hb hkey
   have hne : k.attrs ≠ [] := by intro h; rw [h] at hb; simp at hb
-  obtain ⟨t, ht, aps, hd, _, hsan⟩ := reread_open_tag p hp input k hk htt hne
+  obtain ⟨t, ht, aps, hd, _, hsan⟩ := reread_open_tagC p hp input k hk htt hne
   obtain ⟨a, ha, h1, h2, h3⟩ := C10_sanitizeAttrs p.ensureInit k.data t.attrs aps k.attrs hs hsan b hb hkey
   exact ⟨t, ht, hd, a, ha, h1, h2, h3⟩
 
